@@ -118,6 +118,19 @@ impl ScriptedWalStore {
     pub fn log(&self, v: Value) {
         self.inner.lock().unwrap().log.push(v);
     }
+    /// A crash: every file keeps its fsynced prefix.
+    pub fn crash(&self) {
+        let mut g = self.inner.lock().unwrap();
+        for f in g.files.values_mut() {
+            let n = f.synced;
+            f.data.truncate(n);
+        }
+    }
+    /// A file that is not a WAL segment appears in the directory (lock file, backup copy, editor droppings).
+    pub fn add_stray(&self, name: &str) {
+        let mut g = self.inner.lock().unwrap();
+        g.files.insert(name.to_string(), FileImg { data: b"not a wal segment".to_vec(), synced: 17 });
+    }
 }
 
 pub struct ScriptedWriter {
@@ -266,8 +279,11 @@ fn run_actor_scenario(run: usize, scn: &Value, out: &mut Out) {
     }
     let store = ScriptedWalStore::new(script, true);
     // equal-sized entries so that `cap` entries fill a file exactly
+    // "huge": writer id whose value is that many bytes (an entry far above any sanity bound a reader may apply)
+    let huge_w = scn["huge"][0].as_u64().unwrap_or(0);
+    let huge_len = scn["huge"][1].as_u64().unwrap_or(0) as usize;
     let deltas: HashMap<u64, Arc<ReplicationDelta>> =
-        bursts.iter().flatten().map(|w| (*w, Arc::new(make_delta(*w, 100 + *w, 4)))).collect();
+        bursts.iter().flatten().map(|w| (*w, Arc::new(make_delta(*w, 100 + *w, if *w == huge_w && huge_len > 0 { huge_len } else { 4 })))).collect();
     let mut esize = 0;
     {
         let mut g = store.inner.lock().unwrap();
@@ -281,7 +297,7 @@ fn run_actor_scenario(run: usize, scn: &Value, out: &mut Out) {
         enabled: true,
         wal_dir: "/nonexistent".into(),
         fsync_policy: FsyncPolicy::Always,
-        max_file_size: 16 + cap * esize,
+        max_file_size: if huge_len > 0 { 1 << 30 } else { 16 + cap * esize },
         group_commit_max_entries: batch,
         group_commit_max_wait: Duration::from_micros(200),
         truncation_check_interval: Duration::from_secs(3600),
@@ -325,6 +341,71 @@ fn run_actor_scenario(run: usize, scn: &Value, out: &mut Out) {
     }
 }
 
+/// Two lives of the actor on one store: writes, crash, (a stray file appears,) restart, more writes, crash.
+/// Every write acknowledged in either life must be in the recovery of every later crash image.
+fn run_restart_scenario(run: usize, stray: &str, n1: u64, n2: u64, cap: usize, out: &mut Out) {
+    let store = ScriptedWalStore::new(HashMap::new(), true);
+    let ws: Vec<u64> = (1..=(n1 + n2)).collect();
+    let deltas: HashMap<u64, Arc<ReplicationDelta>> = ws.iter().map(|w| (*w, Arc::new(make_delta(*w, 100 + *w, 4)))).collect();
+    let mut esize = 0;
+    {
+        let mut g = store.inner.lock().unwrap();
+        for (w, d) in &deltas {
+            let enc = WalEntry::from_delta(d, 100 + *w).unwrap().encode();
+            esize = enc.len();
+            g.registry.insert(enc, *w);
+        }
+    }
+    let config = WalConfig {
+        enabled: true,
+        wal_dir: "/nonexistent".into(),
+        fsync_policy: FsyncPolicy::Always,
+        max_file_size: 16 + cap * esize,
+        group_commit_max_entries: 2,
+        group_commit_max_wait: Duration::from_micros(200),
+        truncation_check_interval: Duration::from_secs(3600),
+    };
+    out.emit(&json!({"a": "reset", "run": run, "cap": cap, "batch": 2, "scn": {"restart": true, "stray": stray, "n1": n1, "n2": n2}}));
+    let rt = tokio::runtime::Builder::new_current_thread().enable_all().start_paused(true).build().unwrap();
+    let res = catch(|| {
+        for (life, range) in [(1, 1..=n1), (2, (n1 + 1)..=(n1 + n2))] {
+            let st2 = store.clone();
+            let cfg = config.clone();
+            let ds = deltas.clone();
+            rt.block_on(async move {
+                let (handle, task) = spawn_wal_actor(st2.clone(), cfg).unwrap();
+                for w in range {
+                    st2.log(json!({"a": "send", "w": w}));
+                    let r = handle.write_durable(ds[&w].clone(), 100 + w).await;
+                    st2.log(json!({"a": "ack", "w": w, "ok": r.is_ok(), "err": r.err().map(|e| e.to_string()).unwrap_or_default()}));
+                }
+                // no orderly shutdown: the process dies
+                drop(handle);
+                task.abort();
+                let _ = task.await;
+            });
+            store.crash();
+            if life == 1 && !stray.is_empty() {
+                store.add_stray(stray);
+            }
+        }
+    });
+    let mut g = store.inner.lock().unwrap();
+    for mut ev in std::mem::take(&mut g.log) {
+        ev["run"] = json!(run);
+        out.emit(&ev);
+    }
+    // the image after the second crash
+    let img: BTreeMap<String, Vec<u8>> = g.files.iter().map(|(n, f)| (n.clone(), f.data[..f.synced.min(f.data.len())].to_vec())).collect();
+    let mut v = recover_image(&img, &g.registry);
+    v["a"] = json!("crashcheck");
+    v["run"] = json!(run);
+    out.emit(&v);
+    if let Err(p) = res {
+        out.emit(&json!({"a": "panic", "run": run, "msg": p}));
+    }
+}
+
 fn random_scenario(rng: &mut impl Rng) -> Value {
     let nw = rng.gen_range(1..=8u64);
     let mut ws: Vec<u64> = (1..=nw).collect();
@@ -361,6 +442,24 @@ pub fn main(args: &[String]) -> i32 {
             for i in 0..a.usize("n", 100) {
                 let s = random_scenario(&mut rng);
                 run_actor_scenario(i + 1, &s, &mut out);
+            }
+            println!("{{\"events\": {}}}", out.finish());
+            0
+        }
+        Some("special") => {
+            let mut out = Out::create(&a.str("out", "wal_trace.ndjson"));
+            let mut run = 0;
+            // an entry of 17 MiB among small ones (no faults; crash after every call)
+            for (hw, len) in [(2u64, 17usize << 20), (1, 5 << 20), (3, (1 << 20) + 7)] {
+                run += 1;
+                run_actor_scenario(run, &json!({"cap": 2, "batch": 2, "bursts": [[1, 2], [3, 4]], "faults": [], "huge": [hw, len]}), &mut out);
+            }
+            // two lives on one store, with and without a stray file that sorts last / in between
+            for stray in ["", "wal.lock", "wal-00000001.wal.bak", "zzz", "wal-zzzzzzzz.wal", ".hidden"] {
+                for (n1, n2, cap) in [(3u64, 1u64, 2usize), (2, 2, 1), (4, 3, 3)] {
+                    run += 1;
+                    run_restart_scenario(run, stray, n1, n2, cap, &mut out);
+                }
             }
             println!("{{\"events\": {}}}", out.finish());
             0
